@@ -219,8 +219,40 @@ fn probe_cal_new(func: &str) -> bool {
     false
 }
 
+/// save / load round trip of a named calendar: the loaded calendar carries the same name, answers every day 1970-2200 alike and
+/// re-serialises to the same document
+fn probe_named_roundtrip(func: &str) -> bool {
+    use rateslib::json::JSON;
+    for name in ["tgt,ldn|fed", "TGT,LDN|FED", "ldn,tgt", "nyc", "tgt|nyc,ldn", "stk,osl,zur|tgt,ldn", "all", "bus", "mum,syd|wlg,tyo,tro"] {
+        let what = format!("NamedCal::try_new({:?}) -> to_json -> from_json", name);
+        let cal = match NamedCal::try_new(name) { Ok(c) => c, Err(_) => { report("probe", func, &what, "Err at construction", "Ok", false); return true; } };
+        let doc = match cal.to_json() { Ok(d) => d, Err(_) => { report("probe", func, &what, "to_json failed", "a document", false); return true; } };
+        let back = match std::panic::catch_unwind(|| NamedCal::from_json(&doc)) {
+            Ok(Ok(b)) => b,
+            Ok(Err(_)) => { report("probe", func, &what, "Err on loading", "the calendar that was saved", false); return true; }
+            Err(_) => { report("probe", func, &what, "PANIC on loading", "the calendar that was saved", false); return true; }
+        };
+        let doc2 = back.to_json().unwrap_or_default();
+        if doc2 != doc {
+            report("probe", func, &what, &format!("re-serialises as {}", doc2), &doc, false);
+            return true;
+        }
+        let mut d = ndt(1970, 1, 1);
+        let end = ndt(2200, 12, 31);
+        while d <= end {
+            if bus(&cal, &d) != bus(&back, &d) || cal.is_settlement(&d) != back.is_settlement(&d) {
+                report("probe", func, &format!("{}: (is_bus_day, is_settlement)({})", what, d.date()), &format!("({}, {})", bus(&back, &d), back.is_settlement(&d)), &format!("({}, {})", bus(&cal, &d), cal.is_settlement(&d)), false);
+                return true;
+            }
+            d = d + Days::new(1);
+        }
+    }
+    false
+}
+
 pub fn probe(func: &str) -> bool {
     match func {
+        "try_from" | "from_json" => probe_named_roundtrip(func),
         "new" => probe_cal_new(func) || probe_union(func) || probe_named(func),
         "is_weekday" | "is_holiday" | "is_settlement" => probe_union(func) || probe_named(func),
         "try_new" | "parse_cals" => probe_named(func),
